@@ -109,6 +109,8 @@ type Scenario struct {
 	// that scheme, through the ...Scheme entry points (PostInboxScheme, PostOutboxScheme,
 	// NewActivityStreamsHandlerScheme).
 	Scheme string
+	// AltEndpoints: the local actors' inboxes / outboxes are moved to query-routed IRIs (App.UseAltEndpoints)
+	AltEndpoints bool
 	// PreHeaders are already on the ResponseWriter when the library is called (set by middleware or
 	// by the application's authentication hook).
 	PreHeaders map[string][]string
@@ -138,6 +140,9 @@ func (sc *Scenario) World() *ap.App {
 	}
 	if sc.Scheme != "" && sc.Scheme != "https" {
 		a.UseScheme(sc.Scheme)
+	}
+	if sc.AltEndpoints {
+		a.UseAltEndpoints()
 	}
 	return a
 }
@@ -173,31 +178,36 @@ func (sc *Scenario) OnReq(a *ap.App, t *mc.T, req *ap.Req) *RunOut {
 	if alt {
 		body = []byte(a.RewriteLocal(string(body)))
 	}
+	reqURL := sc.URL
+	if a.AltEndpoints {
+		body = []byte(a.RewriteEndpoints(string(body)))
+		reqURL = a.RewriteEndpoints(sc.URL)
+	}
 	call := func() {
 		switch sc.Entry {
 		case "PostInbox":
-			r := ap.Request(def(sc.Method, "POST"), sc.URL, def(sc.CType, ap.APType), sc.Accept, body)
+			r := ap.Request(def(sc.Method, "POST"), reqURL, def(sc.CType, ap.APType), sc.Accept, body)
 			if alt {
 				out.Handled, out.Err = a.Actor(sc.Kind).PostInboxScheme(ctx, out.W, r, a.LocalScheme)
 			} else {
 				out.Handled, out.Err = a.Actor(sc.Kind).PostInbox(ctx, out.W, r)
 			}
 		case "PostOutbox":
-			r := ap.Request(def(sc.Method, "POST"), sc.URL, def(sc.CType, ap.APType), sc.Accept, body)
+			r := ap.Request(def(sc.Method, "POST"), reqURL, def(sc.CType, ap.APType), sc.Accept, body)
 			if alt {
 				out.Handled, out.Err = a.Actor(sc.Kind).PostOutboxScheme(ctx, out.W, r, a.LocalScheme)
 			} else {
 				out.Handled, out.Err = a.Actor(sc.Kind).PostOutbox(ctx, out.W, r)
 			}
 		case "GetInbox":
-			r := ap.Request(def(sc.Method, "GET"), sc.URL, sc.CType, def(sc.Accept, ap.APType), nil)
+			r := ap.Request(def(sc.Method, "GET"), reqURL, sc.CType, def(sc.Accept, ap.APType), nil)
 			out.Handled, out.Err = a.Actor(sc.Kind).GetInbox(ctx, out.W, r)
 		case "GetOutbox":
-			r := ap.Request(def(sc.Method, "GET"), sc.URL, sc.CType, def(sc.Accept, ap.APType), nil)
+			r := ap.Request(def(sc.Method, "GET"), reqURL, sc.CType, def(sc.Accept, ap.APType), nil)
 			out.Handled, out.Err = a.Actor(sc.Kind).GetOutbox(ctx, out.W, r)
 		case "Handler":
 			req.AuthOK = true // the handler's caller is responsible for authorization
-			r := ap.Request(def(sc.Method, "GET"), sc.URL, sc.CType, def(sc.Accept, ap.APType), nil)
+			r := ap.Request(def(sc.Method, "GET"), reqURL, sc.CType, def(sc.Accept, ap.APType), nil)
 			out.Handled, out.Err = a.Handler()(ctx, out.W, r)
 		case "Send":
 			req.AuthOK = true // programmatic
@@ -212,7 +222,7 @@ func (sc *Scenario) OnReq(a *ap.App, t *mc.T, req *ap.Req) *RunOut {
 				return
 			}
 			out.Handled = true
-			out.Act, out.Err = fa.Send(ctx, ap.U(a.RewriteLocal(sc.URL)), v)
+			out.Act, out.Err = fa.Send(ctx, ap.U(a.RewriteLocal(reqURL)), v)
 		default:
 			panic("unknown entry " + sc.Entry)
 		}
